@@ -10,12 +10,19 @@ typedef struct { size_t obj; long off; } loc_t;
 size_t g_ncpy, g_ncmp; loc_t g_cpy_d[LOGN], g_cpy_s[LOGN]; size_t g_cpy_n[LOGN];
 loc_t g_cmp_a[LOGN], g_cmp_b[LOGN]; size_t g_cmp_n[LOGN]; int g_cmp_r[LOGN];
 loc_t g_exp_buf, g_g_out, g_g_in, g_h_out, g_h_in; size_t g_exp_word, g_g_osize, g_g_isize, g_h_size;
+size_t g_exp_written;   /* octets written by the most recent mpz_export (count * size; 0 for the value 0) */
 loc_t g_last_cpy_d, g_last_cpy_s, g_last_cmp_a, g_last_cmp_b, g_set_p; size_t g_last_cpy_n, g_last_cmp_n, g_set_n; int g_last_cmp_r, g_set_c;
 static inline void *verif_memset(void *d, int c, size_t n)
 { __CPROVER_assert(n == 0 || __CPROVER_w_ok(d, n), "memset: destination holds n octets"); g_set_p = LOC(d); g_set_n = n; g_set_c = c; if (n > 0) __CPROVER_havoc_object(d); return d; }
 #define memset verif_memset
 static inline void *verif_memcpy(void *d, const void *s, size_t n)
 { __CPROVER_assert(n == 0 || __CPROVER_r_ok(s, n), "memcpy: source holds n octets"); __CPROVER_assert(n == 0 || __CPROVER_w_ok(d, n), "memcpy: destination holds n octets");
+  /* the export buffer is a fresh `new unsigned char[]` (uninitialised): reading beyond what mpz_export wrote reads
+   * whatever an earlier call left on the heap */
+  __CPROVER_assert(n == 0 || __CPROVER_POINTER_OBJECT(s) != g_exp_buf.obj || (size_t)__CPROVER_POINTER_OFFSET(s) + n <= g_exp_written
+                   || (ghost_zeroed_n <= 4 && ((ghost_zeroed_n > 0 && ghost_zeroed_obj[0] == g_exp_buf.obj) || (ghost_zeroed_n > 1 && ghost_zeroed_obj[1] == g_exp_buf.obj)
+                       || (ghost_zeroed_n > 2 && ghost_zeroed_obj[2] == g_exp_buf.obj) || (ghost_zeroed_n > 3 && ghost_zeroed_obj[3] == g_exp_buf.obj))),
+                   "memcpy from the mpz_export buffer reads only octets that mpz_export wrote (the rest is uninitialised heap)");
   g_last_cpy_d = LOC(d); g_last_cpy_s = LOC(s); g_last_cpy_n = n;
   if (g_ncpy < LOGN) { g_cpy_d[g_ncpy] = LOC(d); g_cpy_s[g_ncpy] = LOC(s); g_cpy_n[g_ncpy] = n; } g_ncpy++;
   if (n > 0) __CPROVER_havoc_object(d); return d; }
@@ -43,7 +50,7 @@ static inline void *mpz_export(void *rop, size_t *countp, int order, size_t size
   __CPROVER_assume(bits >= 1 && bits < ((unsigned long)1 << 40));
   size_t words = op->v == 0 ? 0 : (bits + 8 * size - 1) / (8 * size);
   __CPROVER_assert(words == 0 || __CPROVER_w_ok(rop, words * size), "mpz_export: destination holds count*size octets (GMP writes that many)");
-  g_exp_buf = LOC(rop); g_exp_word = size;
+  g_exp_buf = LOC(rop); g_exp_word = size; g_exp_written = words * size;
   if (words > 0) __CPROVER_havoc_object(rop);
   if (countp) *countp = words;
   return rop;
@@ -56,7 +63,8 @@ static inline _Bool str_t__op_ne_str(str_t *a, str_t *b) { (void)a; (void)b; ret
 #define STRMAX 64
 #define PRAB_MONITOR g_last_cpy_d, g_last_cpy_s, g_last_cmp_a, g_last_cmp_b, g_set_p, g_last_cpy_n, g_last_cmp_n, g_set_n, g_last_cmp_r, g_set_c, g_ncpy, g_ncmp, __CPROVER_object_whole(g_cpy_d), __CPROVER_object_whole(g_cpy_s), __CPROVER_object_whole(g_cpy_n), \
   __CPROVER_object_whole(g_cmp_a), __CPROVER_object_whole(g_cmp_b), __CPROVER_object_whole(g_cmp_n), __CPROVER_object_whole(g_cmp_r), \
-  g_exp_buf, g_g_out, g_g_in, g_h_out, g_h_in, g_exp_word, g_g_osize, g_g_isize, g_h_size
+  g_exp_buf, g_exp_written, g_g_out, g_g_in, g_h_out, g_h_in, g_exp_word, g_g_osize, g_g_isize, g_h_size
+#define ZEROED_STATE ghost_zeroed_n, __CPROVER_object_whole(ghost_zeroed_obj)
 #define MNSIZE(self) ((size_t)(UF(bits)(V((self)->m)) / 8))
 static inline size_t TMCG_SecretKey__keyid_size(TMCG_SecretKey *self, str_t *s) { (void)self; (void)s; return nondet_ulong(); }
 static inline str_t TMCG_SecretKey__keyid(TMCG_SecretKey *self, size_t n) { (void)self; (void)n; str_t r; r.data = 0; r.size = 0; r.cap = 0; r.absid = (long)nondet_ulong(); return r; }
